@@ -42,6 +42,8 @@ JudgeSmul(e) ==
   /\ GOnCurve(g, P)
   /\ GRep(g, o.mul_assign, X)
   /\ GRep(g, o.affine_mul, X)
+  /\ (Lt(e.k, R) <=> "mul_assign_fr" \in DOMAIN o)
+  /\ (Lt(e.k, R) => GRep(g, o.mul_assign_fr, X) /\ GRep(g, o.affine_mul_fr, X))
   /\ AffRep(o.pre3[1], Tb1) /\ AffRep(o.pre3[2], Tb2) /\ AffRep(o.pre3[3], Tb3)
   /\ GRep(g, o.mul_precomp_3, X)
   /\ GRep(g, o.mul_precomp_256, X)
